@@ -19,6 +19,7 @@ vars == <<files, l, bad, skip>>
 
 Has(r, f) == f \in DOMAIN r
 SF == INSTANCE SkfFile
+CL == INSTANCE Cli
 
 \* recorded projection t (from `ska nk --full-info` or the library) equals table T
 TableIs(t, T) ==
@@ -142,7 +143,13 @@ EvLoad(e) ==
 EvSnpAlign(e) ==
    LET c == e.ctx
        pre == UniquePerPosition(c.samples, c.k) /\ Isolated(c.sites, c.samples, Half(c.k))
-   IN [ok |-> /\ Assert(DerivationOK(c.ancestor, c.sites, c.alleles, c.samples), "DRIVER-DRIFT: samples are not the stated derivation")
+       \* sequence files given directly on the command line: the sample names are the file stems (Cli!NameOfPath)
+       stems == IF "paths" \in DOMAIN e
+                THEN Assert(Len(e.paths) = Len(c.names) /\ \A i \in 1..Len(e.paths) : CL!NameOfPath(e.paths[i]) = e.name_chars[i],
+                            "DRIVER-DRIFT: expected sample names are not the stems of the files given")
+                ELSE TRUE
+   IN [ok |-> /\ stems
+              /\ Assert(DerivationOK(c.ancestor, c.sites, c.alleles, c.samples), "DRIVER-DRIFT: samples are not the stated derivation")
               /\ Assert(pre = c.pre_strict, "DRIVER-DRIFT: precondition evaluated differently by driver and specification")
               /\ (pre => e.ok /\ SnpColumnsOK(e.names, e.seqs, c.names, c.alleles)),
        nf |-> Same]
